@@ -199,6 +199,19 @@ def fold_static(tree):
                     node.value = ast.copy_location(ast.Call(
                         func=ast.Attribute(value=x, attr=nm, ctx=ast.Load()), args=rest, keywords=list(c.func.keywords)), c)
                     return node
+            # x.__setitem__(i, v) / x.__delitem__(i) / x.__imul__(n) as statements (what `getattr(x, name)(*args)` leaves
+            # once the name is known)
+            if isinstance(c, ast.Call) and isinstance(c.func, ast.Attribute) and not c.keywords \
+                    and not any(isinstance(a, ast.Starred) for a in c.args) \
+                    and not (isinstance(c.func.value, ast.Call) and norm_(c.func.value.func) == "super"):
+                x, nm, rest = c.func.value, c.func.attr, list(c.args)
+                if nm == "__setitem__" and len(rest) == 2:
+                    return ast.copy_location(ast.Assign(
+                        targets=[ast.Subscript(value=x, slice=rest[0], ctx=ast.Store())], value=rest[1]), node)
+                if nm == "__delitem__" and len(rest) == 1:
+                    return ast.copy_location(ast.Delete(targets=[ast.Subscript(value=x, slice=rest[0], ctx=ast.Del())]), node)
+                if nm == "__imul__" and len(rest) == 1 and isinstance(x, ast.Name):
+                    return ast.copy_location(ast.AugAssign(target=ast.Name(id=x.id, ctx=ast.Store()), op=ast.Mult(), value=rest[0]), node)
             # operator.setitem(x, i, v) / operator.delitem(x, i) / operator.imul(x, n) as statements
             if isinstance(c, ast.Call) and norm_(c.func) in ("operator.setitem", "setitem") and len(c.args) == 3 and not c.keywords:
                 return ast.copy_location(ast.Assign(
@@ -648,6 +661,83 @@ def inline_generator_loops(fn, find_method=None, find_function=None):
                     out.append(b)
         return out
     fn.body = rewrite(fn.body)
+    return set_parents(fn)
+
+
+def hoist_value_helpers(fn, find_method, max_body=12):
+    """Copy of fn where a call `self.<helper>(args)` that sits inside a larger statement — `super().append(self.link(v))` —
+    reads as the helper's statements placed before that statement and the expression it returns in place of the call:
+        w__link = Wrapper(v); w__link.attach(…); super().append(w__link)
+    for helpers of the class that are straight-line (assignments / expression statements) and end with one `return <expr>`;
+    their locals are renamed (suffix `__<helper>`), arguments must be plain (names, attributes, constants)."""
+    fn = clone(fn)
+
+    def simple(e):
+        return isinstance(e, (ast.Name, ast.Constant)) or (isinstance(e, ast.Attribute) and simple(e.value))
+
+    def expand(st):
+        pre = []
+        for _ in range(3):
+            target = None
+            for c in ast.walk(st):
+                if c is getattr(st, "value", None) and isinstance(st, (ast.Expr,)):
+                    continue          # a call that *is* the statement: inline_helpers' business
+                if isinstance(c, ast.Call) and isinstance(c.func, ast.Attribute) and isinstance(c.func.value, ast.Name) \
+                        and c.func.value.id == "self" and all(simple(a) for a in c.args) and not c.keywords:
+                    h = find_method(c.func.attr)
+                    if h is None or h.name == fn.name or any("property" in norm_(d) for d in h.decorator_list):
+                        continue
+                    body = [b for b in h.body if not (isinstance(b, ast.Expr) and isinstance(b.value, ast.Constant))]
+                    if not body or len(body) > max_body or not isinstance(body[-1], ast.Return) or body[-1].value is None:
+                        continue
+                    if not all(isinstance(b, (ast.Assign, ast.Expr)) for b in body[:-1]) or any(
+                            isinstance(x, (ast.Return, ast.Yield, ast.YieldFrom)) for b in body[:-1] for x in ast.walk(b)):
+                        continue
+                    if len(body) == 1:
+                        continue      # a single return: expression inlining handles it
+                    target = (c, h, body)
+                    break
+            if target is None:
+                break
+            c, h, body = target
+            m = _bind_call(h, c)
+            stored = {x.id for b in body for x in ast.walk(b) if isinstance(x, ast.Name) and isinstance(x.ctx, ast.Store)}
+            for nm in stored:
+                if nm not in m:
+                    m[nm] = ast.Name(id=f"{nm}__{h.name.strip('_')}", ctx=ast.Load())
+            new_pre = [substitute_stmt(b, m) for b in body[:-1]]
+            value = substitute(body[-1].value, m)
+            for x in [y for b in new_pre for y in ast.walk(b)] + list(ast.walk(value)):
+                if isinstance(x, (ast.expr, ast.stmt)):
+                    x.lineno, x.col_offset = st.lineno, st.col_offset
+                    x.end_lineno, x.end_col_offset = getattr(st, "end_lineno", st.lineno), getattr(st, "end_col_offset", 0)
+
+            class R(ast.NodeTransformer):
+                def visit_Call(self, node):
+                    if node is c:
+                        return value
+                    self.generic_visit(node)
+                    return node
+            st = R().visit(st)
+            pre += new_pre
+        return pre + [st]
+
+    def rewrite(stmts):
+        out = []
+        for s_ in stmts:
+            for field in ("body", "orelse", "finalbody"):
+                sub = getattr(s_, field, None)
+                if isinstance(sub, list) and sub and isinstance(sub[0], ast.stmt):
+                    setattr(s_, field, rewrite(sub))
+            for hd in getattr(s_, "handlers", []):
+                hd.body = rewrite(hd.body)
+            if isinstance(s_, (ast.Expr, ast.Assign, ast.AugAssign, ast.Return)):
+                out += expand(s_)
+            else:
+                out.append(s_)
+        return out
+    fn.body = rewrite(fn.body)
+    ast.fix_missing_locations(fn)
     return set_parents(fn)
 
 
